@@ -24,6 +24,15 @@ def main(argv):
     env.import_yadism()
     from . import registry
 
+    if "session" in trace:
+        # a session: several runs executed one after the other in this one process (a violation that needs
+        # state left behind by earlier runners of the same process); only the last run is judged
+        session = trace["session"]
+        for t in session[:-1]:
+            registry.get(t["property"]).execute(t, collect_states=False)
+        last = session[-1]
+        last.setdefault("expect", trace.get("expect"))
+        trace = dict(last, property=last["property"])
     sim = registry.get(trace["property"])
     rep = sim.execute(trace, collect_states=False)
     exp = trace.get("expect") or {}
